@@ -11,7 +11,7 @@ type Expr struct {
 	Hex    bool     `json:"hex,omitempty"`    // print the int literal as 0x…
 	Text   string   `json:"text,omitempty"`   // float literal source text (its value is the value of that text)
 	S      string   `json:"s,omitempty"`      // string literal value
-	Esc    int      `json:"esc,omitempty"`    // string literal spelling: 0 minimal escapes, 1 \uXXXX for everything non-alphanumeric
+	Esc    int      `json:"esc,omitempty"`    // string literal spelling: 0 minimal escapes, 1 \uXXXX for everything non-alphanumeric, 2 the double quote escaped too, 3 line breaks and tabs written as they are
 	Name   string   `json:"name,omitempty"`   // variable, global or function name
 	Args   []*Expr  `json:"args,omitempty"`   // operands / list items / map values / function arguments
 	Keys   []string `json:"keys,omitempty"`   // map literal keys (parallel to Args)
